@@ -6,22 +6,37 @@ import (
 	"github.com/ctessum/geom"
 )
 
+// The Coordinates of a Geometry are either what encoding/json produces
+// (nested []interface{} of float64) or the typed slices that ToGeoJSON
+// produces ([]float64, [][]float64, ...); both are accepted.
+
 func decodeCoordinates(jsonCoordinates interface{}) []float64 {
-	array, ok := jsonCoordinates.([]interface{})
-	if !ok {
-		panic(&InvalidGeometryError{})
-	}
-	coordinates := make([]float64, len(array))
-	for i, element := range array {
-		var ok bool
-		if coordinates[i], ok = element.(float64); !ok {
-			panic(&InvalidGeometryError{})
+	var coordinates []float64
+	switch array := jsonCoordinates.(type) {
+	case []float64:
+		coordinates = append(coordinates, array...)
+	case []interface{}:
+		coordinates = make([]float64, len(array))
+		for i, element := range array {
+			var ok bool
+			if coordinates[i], ok = element.(float64); !ok {
+				panic(&InvalidGeometryError{})
+			}
 		}
+	default:
+		panic(&InvalidGeometryError{})
 	}
 	return coordinates
 }
 
 func decodeCoordinates2(jsonCoordinates interface{}) [][]float64 {
+	if typed, ok := jsonCoordinates.([][]float64); ok {
+		coordinates := make([][]float64, len(typed))
+		for i, element := range typed {
+			coordinates[i] = decodeCoordinates(element)
+		}
+		return coordinates
+	}
 	array, ok := jsonCoordinates.([]interface{})
 	if !ok {
 		panic(&InvalidGeometryError{})
@@ -34,6 +49,13 @@ func decodeCoordinates2(jsonCoordinates interface{}) [][]float64 {
 }
 
 func decodeCoordinates3(jsonCoordinates interface{}) [][][]float64 {
+	if typed, ok := jsonCoordinates.([][][]float64); ok {
+		coordinates := make([][][]float64, len(typed))
+		for i, element := range typed {
+			coordinates[i] = decodeCoordinates2(element)
+		}
+		return coordinates
+	}
 	array, ok := jsonCoordinates.([]interface{})
 	if !ok {
 		panic(&InvalidGeometryError{})
@@ -46,6 +68,13 @@ func decodeCoordinates3(jsonCoordinates interface{}) [][][]float64 {
 }
 
 func decodeCoordinates4(jsonCoordinates interface{}) [][][][]float64 {
+	if typed, ok := jsonCoordinates.([][][][]float64); ok {
+		coordinates := make([][][][]float64, len(typed))
+		for i, element := range typed {
+			coordinates[i] = decodeCoordinates3(element)
+		}
+		return coordinates
+	}
 	array, ok := jsonCoordinates.([]interface{})
 	if !ok {
 		panic(&InvalidGeometryError{})
